@@ -96,6 +96,22 @@ fn gen_c13(tier: &str, rng: &mut Rng, emit: &mut dyn FnMut(Op)) {
                 emit(Op::new("digest.hash", &[alg.to_string().as_bytes(), mode.as_bytes(), s.as_bytes(), d]));
             }
         }
+        // Interrupted is retried however often it comes: long runs of it at the start, in the
+        // middle and right before the end of the data
+        for run in [999usize, 1000, 1001, 3000] {
+            let ints = vec!["i"; run].join(",");
+            for sched in [format!("{},4,4", ints), format!("4,{},4", ints), format!("4,4,{}", ints)] {
+                for mode in ["f", "p"] {
+                    emit(Op::new("digest.hash", &[alg.to_string().as_bytes(), mode.as_bytes(), sched.as_bytes(), b"twelve bytes"]));
+                }
+            }
+        }
+        // a line may BEGIN with the letters of the marker without the '$': it is kept
+        for d in [&b"NetBSD make needs this\nkeep\n"[..], b"NetBSD\n", b"x\nNetBSD: y\n", b"etBSD$ x\n$ NetBSD\n", b"NetBSD$NetBS\n"] {
+            for mode in ["f", "p"] {
+                emit(Op::new("digest.hash", &[alg.to_string().as_bytes(), mode.as_bytes(), b"", d]));
+            }
+        }
         // the string entry point hashes the string's bytes, all of them: a leading byte order mark,
         // blanks, NUL and a trailing newline are data
         for t in ["\u{feff}hello world", "\u{feff}", "\u{feff}\u{feff}x", "x\u{feff}", " hello ", "hello\n", "\nhello", "\0", "a\0b", "\r\n",
